@@ -23,17 +23,17 @@ import (
 	"time"
 )
 
-var schedDebug = os.Getenv("VERIF_SCHED_DEBUG") != ""
+var c19SchedDebug = os.Getenv("VERIF_SCHED_DEBUG") != ""
 
 const (
-	stNew = iota
-	stParked
-	stRunning
-	stBlocked
-	stFin
+	c19StNew = iota
+	c19StParked
+	c19StRunning
+	c19StBlocked
+	c19StFin
 )
 
-type sthread struct {
+type c19Thread struct {
 	name       string
 	gid        int64
 	resume     chan struct{}
@@ -48,19 +48,19 @@ type sthread struct {
 	inEmit bool // an Emit call is in progress
 }
 
-type schedEvent struct {
-	t     *sthread
+type c19Event struct {
+	t     *c19Thread
 	point string
 	fin   bool
 	aux   interface{}
 }
 
-type sched struct {
+type c19Sched struct {
 	mu     sync.Mutex
-	byGid  map[int64]*sthread
-	byName map[string]*sthread
-	order  []*sthread
-	events chan schedEvent
+	byGid  map[int64]*c19Thread
+	byName map[string]*c19Thread
+	order  []*c19Thread
+	events chan c19Event
 	free   atomic.Bool
 	freeCh chan struct{}
 	// configuration
@@ -71,8 +71,8 @@ type sched struct {
 	stuck       bool
 }
 
-func newSched(points []string, timed []string) *sched {
-	s := &sched{byGid: map[int64]*sthread{}, byName: map[string]*sthread{}, events: make(chan schedEvent, 4096), freeCh: make(chan struct{}),
+func c19NewSched(points []string, timed []string) *c19Sched {
+	s := &c19Sched{byGid: map[int64]*c19Thread{}, byName: map[string]*c19Thread{}, events: make(chan c19Event, 4096), freeCh: make(chan struct{}),
 		interesting: map[string]bool{}, timedPoints: map[string]bool{}}
 	for _, p := range points {
 		s.interesting[p] = true
@@ -83,7 +83,7 @@ func newSched(points []string, timed []string) *sched {
 	return s
 }
 
-func curGid() int64 {
+func c19CurGid() int64 {
 	var buf [64]byte
 	n := runtime.Stack(buf[:], false)
 	// "goroutine 123 [running]:"
@@ -96,21 +96,21 @@ func curGid() int64 {
 }
 
 // thread declares a managed thread (scheduler goroutine only).
-func (s *sched) thread(name string) *sthread {
+func (s *c19Sched) thread(name string) *c19Thread {
 	s.mu.Lock()
 	defer s.mu.Unlock()
 	if t, ok := s.byName[name]; ok {
 		return t
 	}
-	t := &sthread{name: name, resume: make(chan struct{}, 1), status: stNew}
+	t := &c19Thread{name: name, resume: make(chan struct{}, 1), status: c19StNew}
 	s.byName[name] = t
 	s.order = append(s.order, t)
 	return t
 }
 
 // bind attaches the calling goroutine to a declared thread.
-func (s *sched) bind(name string) {
-	gid := curGid()
+func (s *c19Sched) bind(name string) {
+	gid := c19CurGid()
 	s.mu.Lock()
 	t := s.byName[name]
 	t.gid = gid
@@ -119,11 +119,11 @@ func (s *sched) bind(name string) {
 }
 
 // yield is installed as the stream package's verifYield and also called by harness goroutines.
-func (s *sched) yield(point string) {
+func (s *c19Sched) yield(point string) {
 	if s.free.Load() || !s.interesting[point] {
 		return
 	}
-	gid := curGid()
+	gid := c19CurGid()
 	s.mu.Lock()
 	t := s.byGid[gid]
 	if t == nil && s.adopt != nil {
@@ -143,7 +143,7 @@ func (s *sched) yield(point string) {
 	if s.auxAt != nil {
 		aux = s.auxAt(point)
 	}
-	s.events <- schedEvent{t: t, point: point, aux: aux}
+	s.events <- c19Event{t: t, point: point, aux: aux}
 	select {
 	case <-t.resume:
 	case <-s.freeCh:
@@ -151,22 +151,22 @@ func (s *sched) yield(point string) {
 }
 
 // finish reports the end of a harness goroutine.
-func (s *sched) finish(name string) {
+func (s *c19Sched) finish(name string) {
 	if s.free.Load() {
 		return
 	}
 	s.mu.Lock()
 	t := s.byName[name]
 	s.mu.Unlock()
-	s.events <- schedEvent{t: t, point: "fin", fin: true}
+	s.events <- c19Event{t: t, point: "fin", fin: true}
 }
 
-func (s *sched) apply(e schedEvent) {
+func (s *c19Sched) apply(e c19Event) {
 	t := e.t
 	if e.fin {
-		t.status = stFin
+		t.status = c19StFin
 	} else {
-		t.status = stParked
+		t.status = c19StParked
 	}
 	t.point = e.point
 	t.moved = true
@@ -177,24 +177,26 @@ func (s *sched) apply(e schedEvent) {
 	}
 }
 
-func (s *sched) drain() {
+func (s *c19Sched) drain() int {
+	n := 0
 	for {
 		select {
 		case e := <-s.events:
 			s.apply(e)
+			n++
 		default:
-			return
+			return n
 		}
 	}
 }
 
 // expect blocks until the named threads have parked for the first time.
-func (s *sched) expect(names ...string) bool {
+func (s *c19Sched) expect(names ...string) bool {
 	deadline := time.After(10 * time.Second)
 	for {
 		ok := true
 		for _, n := range names {
-			if t := s.byName[n]; t == nil || t.status == stNew {
+			if t := s.byName[n]; t == nil || t.status == c19StNew {
 				ok = false
 			}
 		}
@@ -211,26 +213,26 @@ func (s *sched) expect(names ...string) bool {
 	}
 }
 
-type gstate struct {
+type c19GState struct {
 	state   string
 	inYield bool
 	stack   string
 }
 
-// goroutineStates parses runtime.Stack(all): goroutine id → wait state.
-var stackBuf = make([]byte, 1<<18)
+// c19GoroutineStates parses runtime.Stack(all): goroutine id → wait state.
+var c19StackBuf = make([]byte, 1<<18)
 
-func goroutineStates() map[int64]gstate {
+func c19GoroutineStates() map[int64]c19GState {
 	var buf []byte
 	for {
-		n := runtime.Stack(stackBuf, true)
-		if n < len(stackBuf) {
-			buf = stackBuf[:n]
+		n := runtime.Stack(c19StackBuf, true)
+		if n < len(c19StackBuf) {
+			buf = c19StackBuf[:n]
 			break
 		}
-		stackBuf = make([]byte, 2*len(stackBuf))
+		c19StackBuf = make([]byte, 2*len(c19StackBuf))
 	}
-	out := map[int64]gstate{}
+	out := map[int64]c19GState{}
 	for _, blk := range strings.Split(string(buf), "\n\n") {
 		if !strings.HasPrefix(blk, "goroutine ") {
 			continue
@@ -257,12 +259,12 @@ func goroutineStates() map[int64]gstate {
 		if c := strings.IndexByte(st, ','); c >= 0 {
 			st = st[:c]
 		}
-		out[gid] = gstate{stack: blk, state: st, inYield: strings.Contains(blk, "(*sched).yield") || strings.Contains(blk, "(*sched).finish") || strings.Contains(blk, "(*sched).bind")}
+		out[gid] = c19GState{stack: blk, state: st, inYield: strings.Contains(blk, "(*c19Sched).yield") || strings.Contains(blk, "(*c19Sched).finish") || strings.Contains(blk, "(*c19Sched).bind")}
 	}
 	return out
 }
 
-func blockedState(g gstate, timed bool) bool {
+func c19BlockedState(g c19GState, timed bool) bool {
 	if g.inYield {
 		return false
 	}
@@ -280,42 +282,43 @@ func blockedState(g gstate, timed bool) bool {
 }
 
 // settle waits until every managed goroutine is parked, finished or verifiably blocked.
-func (s *sched) settle() {
+func (s *c19Sched) settle() {
 	deadline := time.Now().Add(10 * time.Second)
 	for spin := 0; ; spin++ {
 		s.drain()
 		busy := false
 		for _, t := range s.order {
-			if t.status == stRunning || t.status == stBlocked {
+			if t.status == c19StRunning || t.status == c19StBlocked {
 				busy = true
 			}
 		}
 		if !busy {
 			return
 		}
-		snap := goroutineStates()
-		s.drain()
-		quiet := true
+		snap := c19GoroutineStates()
+		// the snapshot is trusted only if nothing parked after it was taken: then every managed
+		// goroutine was parked, finished or in the state the snapshot shows at one instant
+		quiet := s.drain() == 0
 		for _, t := range s.order {
-			if t.status != stRunning && t.status != stBlocked {
+			if t.status != c19StRunning && t.status != c19StBlocked {
 				continue
 			}
 			g, alive := snap[t.gid]
 			if !alive {
 				// the goroutine returned without passing another yield point (consumer exit)
-				t.status, t.point, t.moved, t.newBlocked = stFin, "fin", true, false
+				t.status, t.point, t.moved, t.newBlocked = c19StFin, "fin", true, false
 				continue
 			}
-			if blockedState(g, t.timed) {
-				if t.status == stRunning {
-					t.status, t.newBlocked = stBlocked, true
-					if schedDebug {
+			if c19BlockedState(g, t.timed) {
+				if t.status == c19StRunning {
+					t.status, t.newBlocked = c19StBlocked, true
+					if c19SchedDebug {
 						println("BLOCKED", t.name, t.point, g.stack)
 					}
 				}
 			} else {
-				if t.status == stBlocked {
-					t.status = stRunning
+				if t.status == c19StBlocked {
+					t.status = c19StRunning
 				}
 				quiet = false
 			}
@@ -336,20 +339,20 @@ func (s *sched) settle() {
 }
 
 // release lets a parked thread run; the caller then settles.
-func (s *sched) release(t *sthread) {
-	t.status = stRunning
+func (s *c19Sched) release(t *c19Thread) {
+	t.status = c19StRunning
 	t.timed = s.timedPoints[t.point]
 	t.resume <- struct{}{}
 }
 
-func (s *sched) clearMarks() {
+func (s *c19Sched) clearMarks() {
 	for _, t := range s.order {
 		t.moved, t.newBlocked = false, false
 	}
 }
 
 // freeAll ends scheduling: every yield point passes, every parked goroutine continues.
-func (s *sched) freeAll() {
+func (s *c19Sched) freeAll() {
 	if s.free.CompareAndSwap(false, true) {
 		close(s.freeCh)
 	}
